@@ -717,13 +717,22 @@ func (p *Parameters) ReadFrom(r io.Reader) (n int64, err error) {
 			return int64(n), fmt.Errorf("buffer.ReadAsUint64[int]: %w", err)
 		}
 
-		bytes := make([]byte, size)
+		// The encoded size is not trusted: the encoding is read by chunks so that a
+		// corrupted size cannot trigger an allocation larger than the available data.
+		var bytes []byte
+		for len(bytes) < size {
 
-		var inc int
-		if inc, err = r.Read(bytes); err != nil {
-			return n + int64(inc), fmt.Errorf("io.Reader.Read: %w", err)
+			start := len(bytes)
+			bytes = append(bytes, make([]byte, min(size-start, 1<<16))...)
+
+			// A single call to Read may return less bytes than requested without error.
+			var inc int
+			if inc, err = io.ReadFull(r, bytes[start:]); err != nil {
+				return n + int64(start+inc), fmt.Errorf("io.ReadFull: %w", err)
+			}
 		}
-		return n + int64(inc), p.UnmarshalJSON(bytes)
+
+		return n + int64(size), p.UnmarshalJSON(bytes)
 
 	default:
 		return p.ReadFrom(bufio.NewReader(r))
